@@ -8,6 +8,7 @@ The coordinate-system formulas (add/dbl in affine, projective, Jacobian coordina
 affine group law by the correspondence run; see DESIGN.md for the translator tie.
 -/
 import RelicVerif.Lemmas.MulAlg
+import RelicVerif.Lemmas.EpFormulas
 
 namespace Relic.Props.C03
 open Relic.Model Relic.Model.MulAlg
